@@ -131,3 +131,96 @@ Definition model_of (c : case) :=
    | GenOk sc => DefOk (sig_of sc) (annotations sc)
    end,
    map (fun p => model_call (cs_spec c) (fst p)) (cs_calls c)).
+
+(** ** Script-level tie (translation validation of the generator).
+
+    The harness parses the source text of the REAL generated initializer (the text
+    [inspect.getsource] returns) into the statement language; [script_case_ok] checks
+    that it is literally the script the model's generator produces for the same
+    specification.  Where it holds, the theorems about [make_init_script] speak about
+    the real script of that class for ALL calls, not only the sampled ones. *)
+
+Definition vexpr_eqb (a b : vexpr) : bool :=
+  match a, b with
+  | XArg x, XArg y | XDefault x, XDefault y => String.eqb x y
+  | XFactory f n s, XFactory f' n' s' => String.eqb f f' && String.eqb n n' && Bool.eqb s s'
+  | _, _ => false
+  end.
+
+Definition setter_eqb (a b : setter) : bool :=
+  match a, b with
+  | SetCached, SetCached | SetPlain, SetPlain | SetInstDict, SetInstDict => true
+  | _, _ => false
+  end.
+
+Definition conv_call_eqb (a b : conv_call) : bool :=
+  match a, b with
+  | NoConv, NoConv => true
+  | ConvCall f s t, ConvCall f' s' t' => String.eqb f f' && Bool.eqb s s' && Bool.eqb t t'
+  | _, _ => false
+  end.
+
+Definition strs_eqb := list_eqb String.eqb.
+
+Fixpoint stmt_eqb (a b : stmt) {struct a} : bool :=
+  match a, b with
+  | SPreInit None, SPreInit None => true
+  | SPreInit (Some ([], [])), SPreInit None => true   (* an empty forwarded list is the same text *)
+  | SPreInit (Some (p, k)), SPreInit (Some (p', k')) => strs_eqb p p' && strs_eqb k k'
+  | SBindSetattr, SBindSetattr | SBindInstDict, SBindInstDict | SPostInit, SPostInit => true
+  | SStore h f c e, SStore h' f' c' e' =>
+      setter_eqb h h' && String.eqb f f' && conv_call_eqb c c' && vexpr_eqb e e'
+  | SIfNotNothing al t e, SIfNotNothing al' t' e' =>
+      String.eqb al al' && stmt_eqb t t' && stmt_eqb e e'
+  | SValidators vs, SValidators vs' =>
+      list_eqb (fun x y => String.eqb (fst x) (fst y) && String.eqb (snd x) (snd y)) vs vs'
+  | SHashCacheInit h, SHashCacheInit h' => setter_eqb h h'
+  | SExcInit l, SExcInit l' => strs_eqb l l'
+  | _, _ => false
+  end.
+
+Definition pdefault_eqb (a b : pdefault) : bool :=
+  match a, b with
+  | PMandatory, PMandatory | PNothing, PNothing => true
+  | PDefaultOf x, PDefaultOf y => String.eqb x y
+  | _, _ => false
+  end.
+
+Definition params_eqb :=
+  list_eqb (fun (x y : string * pdefault) => String.eqb (fst x) (fst y) && pdefault_eqb (snd x) (snd y)).
+
+(** In the parsed text a converter/factory/validator is known by the FIELD whose helper
+    name it carries, not by the user's symbol: compare modulo that renaming by
+    rewriting the model's script to field-named symbols. *)
+Definition field_named_vexpr (e : vexpr) : vexpr :=
+  match e with XFactory f _ s => XFactory f f s | x => x end.
+Definition field_named_conv (fld : string) (c : conv_call) : conv_call :=
+  match c with ConvCall _ s t => ConvCall fld s t | NoConv => NoConv end.
+Fixpoint field_named (s : stmt) : stmt :=
+  match s with
+  | SStore h f c e => SStore h f (field_named_conv f c) (field_named_vexpr e)
+  | SIfNotNothing al t e => SIfNotNothing al (field_named t) (field_named e)
+  | SValidators vs => SValidators (map (fun p => (fst p, fst p)) vs)
+  | x => x
+  end.
+
+Record script_case := {
+  sc_spec : cls_spec;
+  sc_pos : list (string * pdefault);
+  sc_kw : list (string * pdefault);
+  sc_body : list stmt
+}.
+
+Definition script_case_ok (c : script_case) : bool :=
+  match make_init_script (sc_spec c) with
+  | GenValueError => false
+  | GenOk sc =>
+      params_eqb (pos_params sc) (sc_pos c) && params_eqb (kw_params sc) (sc_kw c) &&
+      list_eqb stmt_eqb (map field_named (body sc)) (sc_body c)
+  end.
+
+Definition script_model_of (c : script_case) :=
+  match make_init_script (sc_spec c) with
+  | GenValueError => None
+  | GenOk sc => Some (pos_params sc, kw_params sc, map field_named (body sc))
+  end.
